@@ -16,6 +16,8 @@ def register(add, parse, find_func, const_int, rat_of, ShapeError, module_assign
 
     def dec_arg(node, what):
         """the literal inside Decimal(<literal>)"""
+        from gen_common import resolve
+        node = resolve(node)
         if isinstance(node, ast.Call) and getattr(node.func, "id", getattr(node.func, "attr", None)) == "Decimal" \
                 and len(node.args) == 1 and isinstance(node.args[0], ast.Constant):
             return node.args[0].value
